@@ -397,7 +397,7 @@ func runC11(b *mon.B) {
 	r := gen.New(uint64(b.Seed), 0xC11, uint64(b.Index))
 	caseNo := 0
 	nCfg := b.N(3, 40)
-	perCfg := b.N(1300, 4500)
+	perCfg := b.NQ(1300)
 	for ci := 0; ci < nCfg; ci++ {
 		cfg, users, scs := c11Config(r, 24)
 		sc := scs[0]
